@@ -345,6 +345,61 @@ def null_required_stream(ctx, res):
                         res.violate("C11:required-null-accepted", "a load returned although a required field was given an explicit null (the field has a declared default)", case)
 
 
+def multi_validator_stream(ctx, res):
+    """several validators registered on one field (constructor argument and decorator, or the decorator twice): a load returns only if
+    every one of them was run against the loaded value and passed — at the root, nested, and in items of configuration lists"""
+    import cincoconfig as cc
+    from cincoconfig.support import validator as register
+    for how in ("ctor+decorator", "decorator-twice"):
+        for depth in (0, 2):
+            for in_item in (False, True):
+                for value, rejected_by in ((2049, "even"), (512, "high"), (2048, None)):
+                    calls = []
+
+                    def high(cfg, v, calls=calls):
+                        calls.append("high")
+                        if v < 1024:
+                            raise ValueError("must be at least 1024")
+                        return v
+
+                    def even(cfg, v, calls=calls):
+                        calls.append("even")
+                        if v % 2:
+                            raise ValueError("must be even")
+                        return v
+                    leaf = cc.Schema()
+                    leaf.port = cc.IntField(validator=high) if how == "ctor+decorator" else cc.IntField()
+                    if how == "decorator-twice":
+                        register(leaf.port)(high)
+                    register(leaf.port)(even)
+                    s = cc.Schema()
+                    holder = s
+                    for lvl in range(depth):
+                        holder = getattr(holder, "lvl%d" % lvl)
+                    if in_item:
+                        holder.items = cc.ListField(leaf, default=lambda: [])
+                        tree = {"items": [{"port": value}]}
+                    else:
+                        holder.node = leaf
+                        tree = {"node": {"port": value}}
+                    for lvl in reversed(range(depth)):
+                        tree = {"lvl%d" % lvl: tree}
+                    cfg = s()
+                    del calls[:]
+                    try:
+                        cfg.load_tree(tree)
+                        returned = True
+                    except Exception:  # noqa
+                        returned = False
+                    case = {"stream": "multi-validator", "how": how, "depth": depth, "in_list_item": in_item, "value": value, "rejected_by": rejected_by, "calls": list(calls)}
+                    res.case(stable(case), kind="multi-validator:" + how)
+                    if returned and rejected_by:
+                        res.violate("C11:registered-validator-not-run", "a load returned although a validator registered on the field rejects the loaded value "
+                                    "(a later registration replaced it)", case)
+                    elif returned and not {"high", "even"} <= set(calls):
+                        res.violate("C11:registered-validator-not-run", "a load returned without running every validator registered on the field", case)
+
+
 def run(ctx, n_quick=250, n_thorough=8000):
     res = Result()
     tmp, keypath = P.setup(ctx)
@@ -358,6 +413,7 @@ def run(ctx, n_quick=250, n_thorough=8000):
     guard(res, "C11", falsy_validator_stream, ctx, res, ctx.n(80, 2000))
     guard(res, "C11", empty_item_stream, ctx, res)
     guard(res, "C11", null_required_stream, ctx, res)
+    guard(res, "C11", multi_validator_stream, ctx, res)
     return res
 
 
